@@ -18,6 +18,6 @@ CONSTANTS
   NZero = 0
   MaxBal = 3
   UMax = 7
-INVARIANTS TypeOK CanClose LedgerShape Conservation HeldSigsValid TagSeparation IssuedMatchesLedger TokenOnlyAfterRevocation ClosedOnUnrevoked MerchantExposureBounded NoDoubleSpend
+INVARIANTS TypeOK CanClose LedgerShape Conservation HeldSigsValid TagSeparation IssuedMatchesLedger TokenOnlyAfterRevocation ClosedOnUnrevoked MerchantExposureBounded NoDoubleSpend DisputeWindow DisputePunishOld DisputeOutcomeConserves MerchantPayoffBound DisputeCustomerSafe
 PROPERTIES RefusedStartInert HonestAccepted ReleaseOnlyOnAccept EventuallySettled
 CHECK_DEADLOCK FALSE
